@@ -279,6 +279,13 @@ let dispatch (f : string) (args : sx list) : sx =
        | "xml" -> let (d', s) = Inst.i_flatxml e d in L [sx_of_node d'.d_meta; sx_of_str s]
        | _ -> failwith "render kind")
   | "doc_used", [L segs; au] -> L (SL.map sx_of_node (Inst.i_used_auto_styles (SL.map node_of_sx segs) (node_of_sx au)))
+  | "doc_load_xml", [mime; se; me; co; st] ->
+      let part x = match opt_of_sx str_of_sx x with
+        | None -> None
+        | Some s -> (match Inst.i_xml_parse s with Some t -> Some t | None -> failwith "part does not parse") in
+      let d = LoadInst.i_load_doc (str_of_sx mime) (part se) (part me) (part co) (part st) in
+      L [sx_of_str d.d_mime; sx_of_node d.d_meta; sx_of_node d.d_scripts; sx_of_node d.d_ffd; sx_of_node d.d_settings;
+         sx_of_node d.d_styles; sx_of_node d.d_auto; sx_of_node d.d_master; sx_of_node d.d_body]
   | "ls_load", [L es] ->
       let elem_of_sx = function
         | L [d; L refs] -> { LoadStyles.le_def = opt_of_sx str_of_sx d;
